@@ -39,5 +39,6 @@ else:
         s = (m.get("summary") or "").replace("|", "/").replace("\n", " ")
         nd = (m.get("needs") or "").replace("|", "/").replace("\n", " ")
         note = m.get("note", "")
+        cur = ("n/a — " + m["no_longer_valid"]) if m.get("no_longer_valid") else verdict(m.get("checks", {}).get("quick"))
         print("| `%s` | %s | %s | %s | %s | %s%s |" % (n, m.get("property"), s[:330], nd[:260], verdict(m.get("first_run") or m.get("checks", {}).get("quick")),
-                                                      verdict(m.get("checks", {}).get("quick")), (" — " + note) if note else ""))
+                                                      cur, (" — " + note[:400]) if note else ""))
